@@ -9,6 +9,10 @@
 #           as job JSON, compared at the configuration the front ends build (QPDFJob::Members dump) and, where that differs,
 #           end to end: the non-commuting pairs (DESIGN §6 D12) are found mechanically; pairs not in known_findings.json are reported.
 #   model   (part 'front') the extracted front-end model against the configuration dump of the real front ends.
+#   cwd-*   the hand-written positional / nested handlers in working directories that contain entries named like every kind of word a
+#           handler may expect next (page ranges, '--', option words, passwords, key lengths), inputs named like page ranges:
+#           cwd-cfg (argv vs job JSON at the configuration dump), cwd-front (model given the directory's names vs implementation),
+#           cwd-e2e (five renderings end to end). Theorems: pages_* in Sys/C19ProofsD.v over the specification Sys/JobPagesSpec.v.
 import hashlib, itertools, json, os, re, shutil, subprocess
 import common, pdfgen
 import translate_job_tables as TJ
@@ -21,7 +25,12 @@ ASSUMPTIONS = [
     "renderings and between the two JSON renderings, because the parser-level wording legitimately differs between argv and JSON)",
     "the configuration dump reads QPDFJob::Members through the private header compiled with private spelled public (read only)",
     "help-table options (--version, --help, --copyright, --show-crypto, --job-json-help, --json-help, --zopfli, completion) have no job-JSON form by "
-    "design and are outside the equivalence; @argfile expansion and reading passwords/arguments from standard input are not exercised",
+    "design and are outside the equivalence; @argfile expansion and reading passwords/arguments from standard input are not exercised "
+    "(words @name are used only where no file of that name exists: then they are ordinary words)",
+    "cwd parts: the positional --pages grammar cannot say 'range omitted, next file named like a page range' (theorem "
+    "pages_positional_rangelike_file_refuted); the renderer gives such a file as --file=, which the manual allows to be mixed in; a page range "
+    "that is not one syntactically is given positionally only when no entry of that name exists in the working directory (otherwise the "
+    "grammar reads it as a file name)",
 ]
 
 POOL = ["A.pdf", "B.pdf", "C.pdf", "E.pdf", "E256.pdf", "F.pdf", "att.txt", "att2.txt", "pwfile.txt", "AJ.json", "O.pdf", "W.pdf"]
